@@ -19,7 +19,10 @@ Tie (DESIGN.md §4.2, §5 C12):
  (2) handler level — generated Never probe programs run by harness/common/nevrun.c (ASan/UBSan):
      array deref with every index tuple in [-1, extent] (+ INT_MIN/INT_MAX), range deref, slice
      deref, slice of slice, range of range (each also on ranges next to +-2^31: kind `int-overflow`
-     when range_from +- index does not fit an int), write-through-slice/read-through-array, for-in over
+     when range_from +- index does not fit an int; and on 2-D / 3-D arrays and ranges with ASYMMETRIC
+     ranges per dimension: two and three levels, every direction combination per level and dimension,
+     distinct bounds in every slot of a range vector, reads at every corner and just outside every face,
+     whole-slice read-back -- programs nd_*), write-through-slice/read-through-array, for-in over
      ranges and slices, string index, string slice, element-wise add/sub and matrix product with
      conforming and non-conforming shapes, MK_ARRAY and the matrix product with extents whose product
      does not fit unsigned int (kind `extent-product-overflow`, finding fixed by 1f9996a: wrong_array_size
@@ -154,6 +157,71 @@ def seeded_bound_ranges(rng, n):
         out.append((a, b, min(max(i, 0), INT_MAX)))
     return out
 
+
+
+# ---- n-dimensional compositions (range vectors [from0, to0, from1, to1, ..]) ----------------------------
+def nd_levels(rng, exts, nlev, dirs):
+    """nlev levels of ranges over an array of the given extents; dirs[k][d] = level k, dimension d runs
+    upwards.  Every level has pairwise distinct bounds in all 2*dims slots of its vector (so that reading any
+    other slot than the right one changes the result) and at least 2 positions per dimension."""
+    for attempt in range(4000):
+        levels, lens = [], list(exts)
+        for k in range(nlev):
+            lv = []
+            for d, ln in enumerate(lens):
+                lo = rng.randrange(0, max(1, ln // 2))
+                hi = rng.randrange(max(lo + 1, ln // 2), ln)
+                lv.append((lo, hi) if dirs[k][d] else (hi, lo))
+            flat = [x for pr in lv for x in pr]
+            if len(set(flat)) != len(flat) and attempt < 3500:
+                break
+            levels.append(lv)
+            lens = [rlen(a, b) for a, b in lv]
+            if min(lens) < 2:
+                break
+        if len(levels) == nlev and min(lens) >= 2:
+            return levels
+    raise RuntimeError("nd_levels: no case for %r %r" % (exts, dirs))
+
+
+def nd_denote(levels, idx):
+    """the position the index tuple denotes through the levels (outermost first), per dimension;
+    None: some level's bounds are not indices of the level below, or the index is outside the last level"""
+    dims = len(idx)
+    for k in range(1, len(levels)):
+        for d in range(dims):
+            ln = rlen(*levels[k - 1][d])
+            if not (0 <= levels[k][d][0] < ln and 0 <= levels[k][d][1] < ln):
+                return None
+    pos = []
+    for d in range(dims):
+        x = idx[d]
+        if not 0 <= x < rlen(*levels[-1][d]):
+            return None
+        for lv in reversed(levels):
+            x = rnth(lv[d][0], lv[d][1], x)
+        pos.append(x)
+    return pos
+
+
+def nd_composes(levels):
+    return nd_denote(levels, [0] * len(levels[0])) is not None
+
+
+def nd_indices(rng, lens):
+    """every corner, just outside every face (the other coordinates inside), one interior point"""
+    out = [list(t) for t in itertools.product(*[(0, n - 1) for n in lens])]
+    for d, n in enumerate(lens):
+        for v in (-1, n):
+            t = [rng.randrange(0, m) for m in lens]
+            t[d] = v
+            out.append(t)
+    out.append([rng.randrange(0, m) for m in lens])
+    return out
+
+
+def flat_levels(levels):
+    return [x for lv in levels for pr in lv for x in pr]
 
 def nev_int(v):
     return str(v) if v >= 0 else "(0 - %d)" % (-v) if v > INT_MIN else "(0 - 2147483647 - 1)"
@@ -453,8 +521,8 @@ class Call(object):
 
 
 class Program(object):
-    def __init__(self, pid, decls, mem=None):
-        self.pid, self.decls, self.calls, self.mem = pid, decls, [], mem
+    def __init__(self, pid, decls, mem=None, stack=None):
+        self.pid, self.decls, self.calls, self.mem, self.stack = pid, decls, [], mem, stack
 
     def add(self, call):
         self.calls.append(call)
@@ -855,6 +923,143 @@ def gen_programs(ctx):
                            "print(%s%d(%s, %s))" % (fn, rank, literal(e1), literal(e2, 50, 7)), exp, cmd, mpb))
     progs.append(p)
 
+    # ---- 2-D and 3-D compositions with asymmetric ranges per dimension ---------------------------------------
+    #      (seed C12-10: SLICE_SLICE read from_d of the second-level range from slot d instead of 2*d -- invisible
+    #      in one dimension).  Base cases from a fixed generator (the same on every seed): every direction
+    #      combination per level and dimension; extra cases from the run's seed.
+    base = random.Random(0xC12D)
+    extra = random.Random((ctx.seed << 8) ^ 0x2D)
+
+    def nd_params(nlev, dims):
+        return ["r%d%s%d" % (k, ab, d) for k in range(nlev) for d in range(dims) for ab in "ab"]
+
+    def nd_ranges_expr(nlev, dims):
+        return "".join("[" + ", ".join("r%da%d .. r%db%d" % (k, d, k, d) for d in range(dims)) + "]" for k in range(nlev))
+
+    def nd_combos(nlev, dims):
+        for bits in itertools.product((True, False), repeat=nlev * dims):
+            yield [list(bits[k * dims:(k + 1) * dims]) for k in range(nlev)]
+
+    def rng_map(dims):
+        w = [10 ** (3 * (dims - 1 - d)) for d in range(dims)]
+
+        def f(ans):
+            t = ans.split()
+            return [str(sum(int(v) * m for v, m in zip(t[1:], w)))] if t[0] == "ok" else [E_OOB]
+        return f, w
+
+    def nd_program(kind, exts, nlev, n_extra):
+        """kind 's': a[..][..].. [idx] on an array literal of the given extents; 'r': [..][..]..[idx] on ranges"""
+        dims = len(exts)
+        names = nd_params(nlev, dims)
+        ix = ["i%d" % d for d in range(dims)]
+        pid = "nd_%s%dd_%dlev" % ("slice" if kind == "s" else "range", dims, nlev)
+        sig = ", ".join(n + " : int" for n in names + ix)
+        rmap, w = rng_map(dims)
+        if kind == "s":
+            body = "    let a = %s;\n    let s = a%s;\n    s[%s]\n" % (literal(exts), nd_ranges_expr(nlev, dims), ", ".join(ix))
+        else:
+            body = "    let v = %s[%s];\n    %s\n" % (nd_ranges_expr(nlev, dims), ", ".join(ix),
+                                                     " + ".join("v[%d] * %d" % (d, w[d]) for d in range(dims)))
+        # an array literal pushes all its elements: 336 for the 3-D one
+        pr = Program(pid, "func probe(%s) -> int\n{\n%s}\n%s" % (sig, body, CATCH), stack=4000 if prod(exts) > 100 else None)
+        cls = {("s", 2): "slice_slice", ("r", 2): "slice_range"}.get((kind, nlev), "slice_slice" if kind == "s" else "slice_range")
+        cases = []
+        for dirs in nd_combos(nlev, dims):
+            cases.append((nd_levels(base, exts, nlev, dirs), None))
+        for _ in range(n_extra):
+            dirs = [[extra.random() < 0.5 for _ in range(dims)] for _ in range(nlev)]
+            cases.append((nd_levels(extra, exts, nlev, dirs), None))
+        # a bound of the last level outside the level below (too large / negative), in one dimension only
+        for d in range(dims):
+            for which in (0, 1):
+                for bad in ("big", "neg"):
+                    lv = nd_levels(base, exts, nlev, [[(d + k) % 2 == 0 for _ in range(dims)] for k in range(nlev)])
+                    below = rlen(*lv[-2][d]) if nlev > 1 else exts[d]
+                    pr_ = list(lv[-1][d])
+                    pr_[which] = below if bad == "big" else -1
+                    lv[-1][d] = tuple(pr_)
+                    cases.append((lv, "inner-bound-outside-outer-range" if bad == "big" else "negative-inner-bound"))
+        for levels, forced in cases:
+            lens = [rlen(a, b) for a, b in levels[-1]]
+            idxs = nd_indices(base, lens) if forced is None else [[0] * dims, [1] * dims]
+            for idx in idxs:
+                pos = nd_denote(levels, idx)
+                if kind == "s":
+                    inarr = pos is not None and in_range(exts, pos)
+                    exp = [str(1000 + row_major(exts, pos))] if inarr else [E_OOB]
+                else:
+                    inarr = pos is not None
+                    exp = [str(sum(v * m for v, m in zip(pos, w)))] if inarr else [E_OOB]
+                if forced is not None and nlev > 1:
+                    k = forced
+                elif inarr:
+                    k = "nd-in-range"
+                elif pos is not None:
+                    k = "nd-position-outside-array"
+                else:
+                    k = "nd-" + kind_of_index(lens, idx)
+                descr = "%s%s[%s]" % ("a%s" % list(exts) if kind == "s" else "",
+                                      "".join("[" + ", ".join("%d..%d" % pr_ for pr_ in lv) + "]" for lv in levels),
+                                      ", ".join(map(str, idx)))
+                groups = [" ".join(str(x) for pr_ in lv for x in pr_) for lv in levels] + [" ".join(map(str, idx))]
+                if kind == "s":
+                    cmd = "HSS %s | %s" % (" ".join(map(str, exts)), " | ".join(groups))
+                    mp = elem_map()
+                else:
+                    cmd = "HRR " + " | ".join(groups)
+                    mp = rmap
+                pr.add(Call(cls, k, descr, "print(probe(%s))" % args(flat_levels(levels) + idx), exp, cmd, mp))
+        return pr
+
+    E2, E3 = (7, 8), (6, 7, 8)
+    nx = 40 if thorough else 8
+    progs.append(nd_program("s", E2, 2, nx))
+    progs.append(nd_program("s", E2, 3, nx))
+    progs.append(nd_program("s", E3, 2, nx))
+    progs.append(nd_program("r", E2, 2, nx))
+    progs.append(nd_program("r", E2, 3, nx))
+    progs.append(nd_program("r", E3, 2, nx))
+
+    # whole-slice read-back by index (for-in takes one-dimensional operands only): every element of a 2-D
+    # slice of a slice, then of a slice of a slice of a slice; and for-in over a three-level 1-D slice / range
+    decl = ("func all2(%s, n0 : int, n1 : int) -> int\n{\n    let a = %s;\n    let s = a%s;\n    var i = 0;\n    var j = 0;\n"
+            "    for (i = 0; i < n0; i = i + 1)\n        for (j = 0; j < n1; j = j + 1)\n            print(s[i, j]);\n    0\n}\n%s"
+            % (", ".join(n + " : int" for n in nd_params(2, 2)), literal(E2), nd_ranges_expr(2, 2), CATCH))
+    decl += ("func all3(%s, n0 : int, n1 : int) -> int\n{\n    let a = %s;\n    let s = a%s;\n    var i = 0;\n    var j = 0;\n"
+             "    for (i = 0; i < n0; i = i + 1)\n        for (j = 0; j < n1; j = j + 1)\n            print(s[i, j]);\n    0\n}\n%s"
+             % (", ".join(n + " : int" for n in nd_params(3, 2)), literal(E2), nd_ranges_expr(3, 2), CATCH))
+    decl += ("func it3s(%s) -> int\n{\n    let a = %s;\n    for (e in a%s) print(e);\n    0\n}\n%s"
+             % (", ".join(n + " : int" for n in nd_params(3, 1)), literal((N,)), nd_ranges_expr(3, 1), CATCH))
+    decl += ("func it3r(%s) -> int\n{\n    for (e in %s) print(e);\n    0\n}\n%s"
+             % (", ".join(n + " : int" for n in nd_params(3, 1)), nd_ranges_expr(3, 1), CATCH))
+    p = Program("nd_readback", decl)
+    for nlev, fn in ((2, "all2"), (3, "all3")):
+        combos = list(nd_combos(nlev, 2))
+        if nlev == 3:
+            combos = combos[::5] + [[[extra.random() < 0.5 for _ in range(2)] for _ in range(3)] for _ in range(4)]
+        for dirs in combos:
+            levels = nd_levels(base, E2, nlev, dirs)
+            lens = [rlen(a, b) for a, b in levels[-1]]
+            exp = [str(1000 + row_major(E2, nd_denote(levels, [i, j]))) for i in range(lens[0]) for j in range(lens[1])] + ["0"]
+            p.add(Call("slice_slice", "nd-read-back", "every element of a%s%s" % (
+                list(E2), "".join("[" + ", ".join("%d..%d" % pr_ for pr_ in lv) + "]" for lv in levels)),
+                "print(%s(%s))" % (fn, args(flat_levels(levels) + lens)), exp))
+    for dirs in nd_combos(3, 1):
+        levels = nd_levels(base, (N,), 3, dirs)
+        ln = rlen(*levels[-1][0])
+        pos = [nd_denote(levels, [k])[0] for k in range(ln)]
+        rl = [[(0, 40)]] + levels          # ranges: the same composition on top of [0..40] is the identity on positions
+        p.add(Call("forin_slice_of_slice", "nd-iteration", "for e in a[8]%s" % "".join("[%d..%d]" % lv[0] for lv in levels),
+                   "print(it3s(%s))" % args(flat_levels(levels)), [str(1000 + q) for q in pos] + ["0"]))
+        lv3 = nd_levels(base, (41,), 3, dirs)
+        ln3 = rlen(*lv3[-1][0])
+        p.add(Call("forin_range_of_range", "nd-iteration", "for e in %s" % "".join("[%d..%d]" % lv[0] for lv in lv3),
+                   "print(it3r(%s))" % args(flat_levels(lv3)),
+                   [str(rnth(lv3[0][0][0], lv3[0][0][1], rnth(lv3[1][0][0], lv3[1][0][1], rnth(lv3[2][0][0], lv3[2][0][1], k))))
+                    for k in range(ln3)] + ["0"]))
+    progs.append(p)
+
     # ---- use after iteration: iterating a range / slice / array must not change what it denotes -----
     helpers = (
         "func at_s(s[f .. t] : int, i : int) -> int\n{\n    s[i]\n}\n" + CATCH +
@@ -1200,7 +1405,8 @@ def run_probes(ctx, nevrun):
     else:
         mans = dict(zip(cmds, [ln.split(" ", 1)[1] if " " in ln else ln for ln in mout.split("\n")]))
     # batches
-    allprogs = [(p.pid + (" mem=%d" % p.mem if p.mem else ""), p.source()) for p in progs]
+    allprogs = [(p.pid + (" mem=%d" % p.mem if p.mem else "") + (" stack=%d" % p.stack if p.stack else ""), p.source())
+                for p in progs]
     allprogs += [("cc_" + n, s) for n, s, _ in COMPILE_PROBES]
     allprogs += [("corpus_%d" % k, c["src"]) for k, c in enumerate(corpus)]
     nb = min(NPROC, len(allprogs))
